@@ -378,7 +378,8 @@ def r3_no_hidden_acceptance_logic(ctx, d, with_required: bool = True) -> None:
                 cfg = r_[1] if r_[0] == "alias" else None
             if isinstance(cfg, ast.Call):
                 for kw in cfg.keywords:
-                    if kw.arg not in ("title", "json_schema_extra"):
+                    # (populate_by_name, also accepted as a class keyword below, only matters for aliases, which are refused)
+                    if kw.arg not in ("title", "json_schema_extra", "populate_by_name"):
                         probs.append((cfg, f"model_config sets {kw.arg}"))
             elif c.class_assigns.get("model_config") is not None and cfg is not None and not isinstance(cfg, ast.Call):
                 probs.append((c.class_assigns["model_config"], f"model_config is `{u(c.class_assigns['model_config'])[:40]}`, not a ConfigDict(..) literal"))
